@@ -149,7 +149,11 @@ def run(ctx):
 
 
 def canon(t):
-    """merge(D, D) etc. are left alone; only normalise attrs 'expr' spellings of .keys()"""
+    """merge(D, D) = D (merging a domain with itself adds nothing); applied bottom-up"""
+    if isinstance(t, tuple):
+        t = tuple(canon(x) for x in t)
+        if len(t) == 3 and t[0] == 'merge' and t[1] == t[2]:
+            return t[1]
     return t
 
 
